@@ -139,6 +139,29 @@ impl RngCore for Forced {
     }
 }
 
+/// a few scripted generator words, then a real generator
+struct Script {
+    words: Vec<u64>,
+    pos: usize,
+    inner: Xoshiro256PlusPlus,
+}
+impl RngCore for Script {
+    fn next_u32(&mut self) -> u32 {
+        (self.next_u64() >> 32) as u32
+    }
+    fn next_u64(&mut self) -> u64 {
+        let w = if self.pos < self.words.len() { self.words[self.pos] } else { self.inner.next_u64() };
+        self.pos += 1;
+        w
+    }
+    fn fill_bytes(&mut self, dst: &mut [u8]) {
+        for chunk in dst.chunks_mut(8) {
+            let w = self.next_u64().to_le_bytes();
+            chunk.copy_from_slice(&w[..chunk.len()]);
+        }
+    }
+}
+
 /// sample once with the first generator word forced; returns (value, words consumed)
 fn forced_sample(d: &ExpRestricted01, first: u64, inner_seed: u64) -> (f64, u64) {
     let mut g = Forced { first: Some(first), inner: Xoshiro256PlusPlus::seed_from_u64(inner_seed), consumed: 0 };
@@ -228,6 +251,18 @@ pub fn eval(c: &Case) -> Eval {
             let (x, _) = forced_sample(&d, w, 5);
             ensure!(x >= 0.0 && x < 1.0, "lambda = {:e}: with the first generator word {:#x} (within 512 of the branch boundary) the sample is {:e}, outside [0,1)", lambda, w, x);
         }
+        // exact: inside the rejection branch, the extreme generator words (0, all ones and their neighbours) in the next three draws must
+        // still give values in [0,1) (a closed base uniform, or a comparison accepting equality, returns exactly 1 there)
+        let edge_words = [0u64, u64::MAX, u64::MAX - 1, 1, u64::MAX << 11, 1u64 << 63];
+        for a in edge_words {
+            for b in edge_words {
+                for e in edge_words {
+                    let mut g = Script { words: vec![u64::MAX.max(thr), a, b, e], pos: 0, inner: Xoshiro256PlusPlus::seed_from_u64(9) };
+                    let x = d.sample(&mut g);
+                    ensure!(x >= 0.0 && x < 1.0, "lambda = {:e}: with the generator words [{:#x}, {:#x}, {:#x}, {:#x}] (rejection branch, then extreme words) the sample is {:e}, outside [0,1)", lambda, u64::MAX.max(thr), a, b, e, x);
+                }
+            }
+        }
         let nb = c.branch_n.unwrap_or(c.n / 2).max(50_000);
         let runb = |seed: u64, n: u64| -> Result<(f64, Option<String>), Fail> {
             let mut r = SmRng::new(seed);
@@ -266,7 +301,7 @@ pub fn eval(c: &Case) -> Eval {
 pub fn run(ctx: &Ctx) {
     ctx.set_rule("proptest generates lambda (log-uniform 1e-9..40, ln(m/(m-1)) for generated m as used by ProbMinHash3, ln 2, 0.5, 1, 40) and a generator seed. For each: n samples from a Xoshiro256++ stream; every sample must lie in [0,1) (exact); the Kolmogorov distance to the closed-form distribution function \
         (1-exp(-lambda x))/(1-exp(-lambda)) must be within the Dvoretzky-Kiefer-Wolfowitz bound (delta 1e-14, confirmed on an independent seed with 4x the samples). Stratified sub-check of the rejection branch: the first generator word is forced into the range that enters the branch (threshold found by bisection on the observed number of words consumed) \
-        and the conditional samples are compared by DKW with the residual law proportional to exp(lambda(1-x)) - 1. Both comparisons are also made bin by bin (64 equal-width and 64 equal-probability intervals, Bernstein bound per interval, delta 1e-14/128, confirmed on an independent seed), which resolves a defect confined to a narrow window. \
+        and the conditional samples are compared by DKW with the residual law proportional to exp(lambda(1-x)) - 1. Inside the branch, all 216 triples of extreme generator words (0, all ones and neighbours) must give values in [0,1) (exact). Both comparisons are also made bin by bin (64 equal-width and 64 equal-probability intervals, Bernstein bound per interval, delta 1e-14/128, confirmed on an independent seed), which resolves a defect confined to a narrow window. \
         Sub-check grid: a stratified sweep, one lambda in every cell of width 1/8 (thorough: 1/32) of (0,12] (place inside the cell drawn from the run seed), same decisions. Every lambda is a non-trivial case; distinct = distinct (lambda, seed).");
     ctx.assume("the stratified sub-check assumes that the first generator word alone decides whether the rejection branch is entered; this is verified on the build under test and the sub-check is skipped (and reported as skipped) otherwise");
     super::run_fixed_tier(ctx, replay);
